@@ -148,17 +148,7 @@ fn pop_check(text: &[u8], repr: u8, front: bool) {
     }
 }
 
-// @props C15 C06 C13
-// @fns KString::pop_front, KString::pop_back, StringSlice::split, From<StringSlice<usize>> for KString
-// @bound text of 4 bytes in UTF-8 shapes [1,1,1,1], [1,2,1], [2,2], [3,1], [1,3]; ASCII slots in {a, CR, LF, tab}, 2-byte slots in {U+00E9, U+0301}, 3-byte slot U+5B57; representations Full, Slice(u16), SliceLarge; either end
-// @timeout 1200
-// @mem 12
-#[kani::proof]
-#[kani::unwind(8)]
-fn c15_kstring_pop() {
-    let repr: u8 = kani::any();
-    kani::assume(repr < 3);
-    let front: bool = kani::any();
+fn pop_all_shapes(repr: u8, front: bool) {
     {
         let mut b = [0u8; 4];
         put1(&mut b, 0); put1(&mut b, 1); put1(&mut b, 2); put1(&mut b, 3);
@@ -184,7 +174,78 @@ fn c15_kstring_pop() {
         put1(&mut b, 0); put3(&mut b, 1);
         pop_check(&b, repr, front);
     }
-    kani::cover!(repr == 2 && !front, "pop_back on the boxed representation");
+}
+
+// @props C15 C06 C13
+// @tier quick
+// @fns KString::pop_front (Full representation), StringSlice::split, From<StringSlice<usize>> for KString, the grapheme segmentation model
+// @bound text of 4 bytes in UTF-8 shapes [1,1,1,1], [1,2,1], [2,2], [3,1], [1,3]; ASCII slots in {a, CR, LF, tab}, 2-byte slots in {U+00E9, U+0301}, 3-byte slot U+5B57
+// @timeout 1200
+// @mem 8
+#[kani::proof]
+#[kani::unwind(8)]
+fn c15_kstring_pop_front_full() {
+    pop_all_shapes(0, true);
+}
+
+// @props C15 C06 C13
+// @tier quick
+// @fns KString::pop_back (Full representation), StringSlice::split, From<StringSlice<usize>> for KString, the grapheme segmentation model
+// @bound text of 4 bytes in UTF-8 shapes [1,1,1,1], [1,2,1], [2,2], [3,1], [1,3]; ASCII slots in {a, CR, LF, tab}, 2-byte slots in {U+00E9, U+0301}, 3-byte slot U+5B57
+// @timeout 1200
+// @mem 8
+#[kani::proof]
+#[kani::unwind(8)]
+fn c15_kstring_pop_back_full() {
+    pop_all_shapes(0, false);
+}
+
+// @props C15 C06 C13
+// @tier quick
+// @fns KString::pop_front (Slice (u16 bounds) representation), StringSlice::split, From<StringSlice<usize>> for KString, the grapheme segmentation model
+// @bound text of 4 bytes in UTF-8 shapes [1,1,1,1], [1,2,1], [2,2], [3,1], [1,3]; ASCII slots in {a, CR, LF, tab}, 2-byte slots in {U+00E9, U+0301}, 3-byte slot U+5B57
+// @timeout 1200
+// @mem 8
+#[kani::proof]
+#[kani::unwind(8)]
+fn c15_kstring_pop_front_slice() {
+    pop_all_shapes(1, true);
+}
+
+// @props C15 C06 C13
+// @tier quick
+// @fns KString::pop_back (Slice (u16 bounds) representation), StringSlice::split, From<StringSlice<usize>> for KString, the grapheme segmentation model
+// @bound text of 4 bytes in UTF-8 shapes [1,1,1,1], [1,2,1], [2,2], [3,1], [1,3]; ASCII slots in {a, CR, LF, tab}, 2-byte slots in {U+00E9, U+0301}, 3-byte slot U+5B57
+// @timeout 1200
+// @mem 8
+#[kani::proof]
+#[kani::unwind(8)]
+fn c15_kstring_pop_back_slice() {
+    pop_all_shapes(1, false);
+}
+
+// @props C15 C06 C13
+// @tier thorough
+// @fns KString::pop_front (SliceLarge (boxed) representation), StringSlice::split, From<StringSlice<usize>> for KString, the grapheme segmentation model
+// @bound text of 4 bytes in UTF-8 shapes [1,1,1,1], [1,2,1], [2,2], [3,1], [1,3]; ASCII slots in {a, CR, LF, tab}, 2-byte slots in {U+00E9, U+0301}, 3-byte slot U+5B57
+// @timeout 1200
+// @mem 8
+#[kani::proof]
+#[kani::unwind(8)]
+fn c15_kstring_pop_front_large() {
+    pop_all_shapes(2, true);
+}
+
+// @props C15 C06 C13
+// @tier thorough
+// @fns KString::pop_back (SliceLarge (boxed) representation), StringSlice::split, From<StringSlice<usize>> for KString, the grapheme segmentation model
+// @bound text of 4 bytes in UTF-8 shapes [1,1,1,1], [1,2,1], [2,2], [3,1], [1,3]; ASCII slots in {a, CR, LF, tab}, 2-byte slots in {U+00E9, U+0301}, 3-byte slot U+5B57
+// @timeout 1200
+// @mem 8
+#[kani::proof]
+#[kani::unwind(8)]
+fn c15_kstring_pop_back_large() {
+    pop_all_shapes(2, false);
 }
 
 // @props C15 C06
